@@ -23,7 +23,7 @@ ASSUMPTIONS = [
 NAME_RANK = {"feature_name": 0, "standard_name": 10, "name": 15, "gene": 20, "gene_name": 30, "label": 40, "operon": 50}
 ID_RANK = {"feature_id": 0, "id": 255}
 KEYS = list(NAME_RANK) + list(ID_RANK)
-LOOKALIKE = ["names", "gene_names", "xid", "feature_ids", "a_name", "nam", "ids", "feature-name"]
+LOOKALIKE = ["names", "gene_names", "xid", "feature_ids", "a_name", "nam", "ids", "feature-name", "gene\n", "ID\n", " label", "operon "]
 NSH = 16
 
 
